@@ -197,6 +197,24 @@ Section Strip.
     f_equal. subst part'. f_equal. pose proof strip_k'. lia.
   Qed.
 
+  (** after an effective cut the index area is not full: either an index entry was popped (it had
+      been written while the file was not full) or the cut lies in the last, partial block (and a
+      full file has no partial block) *)
+  Lemma strip_index_not_full : HDR_LEN + nlen (ienc A) + 10 < c_da c.
+  Proof.
+    pose proof strip_blocks as Hb. pose proof strip_m as [Hm1 Hm2].
+    destruct (N.ltb_spec (HDR_LEN + nlen (ienc A) + 10) (c_da c)) as [Hlt|Hfull]; [exact Hlt|exfalso].
+    destruct Bs as [|b Bs'] eqn:EBs.
+    - rewrite app_nil_r in Hb. rewrite <- Hb in Hfull.
+      pose proof (wf_full c W Hfull) as Hp. subst post. rewrite Hp in Hm2. cbn [concat app length] in Hm2. lia.
+    - pose proof (wf_fits c W) as Hf. rewrite Hb in Hf.
+      clear - Hf Hfull. revert Hf Hfull. unfold ienc. generalize HDR_LEN as off.
+      induction A as [|a A' IH]; intros off Hf Hfull.
+      + cbn [app idx_fits map concat] in *. unfold nlen in Hfull. cbn [length] in Hfull. lia.
+      + cbn [app idx_fits map concat] in *. destruct Hf as [_ Hf]. apply (IH _ Hf).
+        rewrite nlen_app in Hfull. unfold nlen in *. lia.
+  Qed.
+
   Lemma strip_wfc : wfc (c_truncate c k).
   Proof.
     pose proof strip_kept as Hkept. pose proof strip_m as [Hm1 Hm2].
@@ -220,18 +238,7 @@ Section Strip.
     - intros _. unfold c_dcur, c_all, c_truncate. cbn [c_blocks c_part c_dpos]. reflexivity.
     - unfold c_truncate. cbn [c_first c_split]. apply (wf_split c W).
     - unfold c_truncate. cbn [c_da c_blocks c_part]. fold k' j0 m A Bs. fold post. intros Hfull.
-      pose proof strip_blocks as Hb. pose proof strip_A_len as HAl.
-      destruct Bs as [|b Bs'] eqn:EBs.
-      + (* the cut is behind the last index entry: the file itself was full, so it had no partial block *)
-        rewrite app_nil_r in Hb. rewrite <- Hb in Hfull.
-        pose proof (wf_full c W Hfull) as Hp. subst post. rewrite Hp in Hm2. cbn [concat app length] in Hm2. lia.
-      + (* the entry of block b was written while the file was not full *)
-        pose proof (wf_fits c W) as Hf. rewrite Hb in Hf. exfalso.
-        clear - Hf Hfull. revert Hf Hfull. unfold ienc. generalize HDR_LEN as off.
-        induction A as [|a A' IH]; intros off Hf Hfull.
-        * cbn [app idx_fits map concat] in *. unfold nlen in Hfull. cbn [length] in Hfull. lia.
-        * cbn [app idx_fits map concat] in *. destruct Hf as [_ Hf]. apply (IH _ Hf).
-          rewrite nlen_app in Hfull. unfold nlen in *. lia.
+      exfalso. pose proof strip_index_not_full. lia.
   Qed.
 
   Lemma pop_ixs : pop_n (N.to_nat (nlen Bs)) (ixs_of (c_first c) (c_blocks c)) = ixs_of (c_first c) A.
